@@ -299,6 +299,69 @@ theorem commit_spec (c : Cache) (p : Path) (u : Url) (t : Bytes) (io : CommitIo)
     | none => cases tr <;> cases ps <;> simp [Cache.set, hcp]
     | some n => cases n <;> cases tr <;> cases rm <;> cases ps <;> simp [Cache.set, hcp]
 
+
+/-! ### single steps, for evaluating concrete runs -/
+
+theorem step_chunk_some {c : Cache} {req : Req} {u : Url} {rest : List Url} {temp : Option Bytes} {nl : Bool}
+    {ps ps' : P.σ} {rx : List Bytes} {b cb : Bytes} {w : Bool} (h : P.feed ps b = some (ps', cb)) :
+    step c req (.streaming u rest temp nl ps rx) (.chunk b w) =
+      (c, .streaming u rest (tee temp cb w) (updNl nl cb) ps' (b :: rx)) := by
+  simp only [step, h]
+
+theorem step_eof_commit {c : Cache} {req : Req} {u : Url} {rest : List Url} {temp : Option Bytes} {nl : Bool}
+    {ps : P.σ} {rx : List Bytes} {fin tt : Bytes} {t : P.Sym} {io : CommitIo}
+    (h : P.finish ps = some (fin, t)) (ht : tee temp fin io.writeOk = some tt) (hn : updNl nl fin = true) :
+    step c req (.streaming u rest temp nl ps rx) (.eof io) =
+      (commit c req.path u tt io, .done (.downloaded rx u)) := by
+  simp only [step, h, ht, hn, if_true]
+
+
+theorem runRev_suffix_some (xs ys : List Bytes) {r : P.σ × Bytes} (h : P.runRev (xs ++ ys) = some r) :
+    ∃ r', P.runRev ys = some r' := by
+  induction xs generalizing r with
+  | nil => exact ⟨r, h⟩
+  | cons x xs ih =>
+    simp only [List.cons_append, ParserModel.runRev] at h
+    cases ho : P.runRev (xs ++ ys) with
+    | none => rw [ho] at h; simp at h
+    | some r0 => exact ih ho
+
+/-- a run of chunk events whose writes all succeed, from a streaming state: the state reached is
+    the one `runRev` computes (newest chunk first), the temp file holds the callback bytes -/
+theorem runTask_chunks (c : Cache) (req : Req) (u : Url) (rest : List Url) :
+    ∀ (chunks : List Bytes) (rx0 : List Bytes) (s0 : P.σ) (cb0 : Bytes) (s1 : P.σ) (cb1 : Bytes),
+      P.runRev rx0 = some (s0, cb0) → P.runRev (chunks.reverse ++ rx0) = some (s1, cb1) →
+      runTask c req (.streaming u rest (some cb0) (updNl false cb0) s0 rx0) (chunks.map fun b => Ev.chunk b true) =
+        (c, .streaming u rest (some cb1) (updNl false cb1) s1 (chunks.reverse ++ rx0)) := by
+  intro chunks
+  induction chunks with
+  | nil =>
+    intro rx0 s0 cb0 s1 cb1 h0 h1
+    simp only [List.reverse_nil, List.nil_append] at h1
+    rw [h0] at h1
+    cases h1
+    rfl
+  | cons b bs ih =>
+    intro rx0 s0 cb0 s1 cb1 h0 h1
+    have e : (b :: bs).reverse ++ rx0 = bs.reverse ++ (b :: rx0) := by simp
+    rw [e] at h1 ⊢
+    obtain ⟨⟨s', cb'⟩, hb⟩ := runRev_suffix_some bs.reverse (b :: rx0) h1
+    have hfeed : ∃ cbd, P.feed s0 b = some (s', cbd) ∧ cb' = cb0 ++ cbd := by
+      simp only [ParserModel.runRev, h0] at hb
+      cases hf : P.feed s0 b with
+      | none => rw [hf] at hb; simp at hb
+      | some r =>
+        obtain ⟨s2, cbd⟩ := r
+        rw [hf] at hb
+        simp only [Option.some.injEq, Prod.mk.injEq] at hb
+        exact ⟨cbd, by rw [hb.1], hb.2.symm⟩
+    obtain ⟨cbd, hf, hcb⟩ := hfeed
+    simp only [List.map_cons, runTask, step_chunk_some hf]
+    have := ih (b :: rx0) s' cb' s1 cb1 hb h1
+    simp only [tee, if_true, updNl_append]
+    rw [← hcb]
+    exact this
+
 theorem getElem?_set_fst {α β : Type} (l : List (α × β)) (i : Nat) (a : α) (b b' : β)
     (h : l[i]? = some (a, b)) : (l.set i (a, b')).map Prod.fst = l.map Prod.fst := by
   induction l generalizing i with
